@@ -63,6 +63,21 @@ Definition xml_decode_repl (r : bytes) : option bytes :=
 Definition xml_entity_ok (e : bytes * bytes) : bool :=
   obeqb (lookup (fst e ++ [59]) ref_xml_entities) (xml_decode_repl (snd e)).
 Definition xml_rev_entity_ok (e : bytes * bytes) : bool := obeqb (xml_decode_repl (snd e)) (Some (fst e)).
+(* attribute values: an escape is a predefined entity or ONE decimal character reference, and decodes to exactly the byte;
+   the characters that must stay escaped in a double-quoted attribute value (markup: < &; normalised away: TAB LF CR)
+   all have an entry *)
+Definition xml_decode_repl_num (r : bytes) : option bytes :=
+  match r with
+  | 38 :: 35 :: rest =>
+      match rev rest with
+      | 59 :: ds => match ds with [] => None | _ => option_map (fun n => [n]) (parse_dec_acc 0 (rev ds)) end
+      | _ => None
+      end
+  | _ => xml_decode_repl r
+  end.
+Definition xml_attr_rev_entity_ok (e : bytes * bytes) : bool := obeqb (xml_decode_repl_num (snd e)) (Some (fst e)).
+Definition xml_attr_rev_complete (l : list (bytes * bytes)) : bool :=
+  forallb (fun c => existsb (fun e => beqb (fst e) [c]) l) [60; 38; 9; 10; 13].
 
 (* ---------- colours ---------- *)
 Definition hexv (c : byte) : option Z :=
